@@ -18,6 +18,10 @@ import Proofs.Lemmas.C11Tied
 import Proofs.Lemmas.C11PFormulas
 import Proofs.Lemmas.C11Errors
 import Proofs.Lemmas.C11Misc
+import Proofs.Lemmas.C11Groups
+import Proofs.Lemmas.C11GroupsEnum
+import Proofs.Lemmas.C11Compose
+import Proofs.Lemmas.C11TiedCompose
 
 namespace C11.Props
 open Stats Stats.UStat Stats.UDist
@@ -131,6 +135,67 @@ theorem greater_spec (cdf : Int → Rat) (dist : List Nat) (h : IsCDFOf cdf dist
     (u : Nat) (tu2 : Int) :
     exactP cdf .greater (u : Int) tu2 = Spec.UExact.pGreater dist u :=
   C11.greater_spec cdf dist h hne u tu2
+
+/-- **two_sided_spec_partial.** The code's two-sided value (1 if U1 = U2, else 2·CDF(min(U1,U2))) is the
+    specification's min(1, 2·min(P(2U ≤ u), P(2U ≥ u))) PROVIDED the null distribution is symmetric
+    about n1·n2 (hypothesis `hsym`, c = 2·n1·n2). Without symmetry it is false: see the witness below. -/
+theorem two_sided_spec_partial (cdf : Int → Rat) (dist : List Nat) (c : Nat)
+    (h : IsCDFOf cdf dist) (hne : dist ≠ [])
+    (hsym : ∀ v : Nat, (dist.filter (· ≤ v)).length = (dist.filter (fun d => decide (d + v ≥ c))).length)
+    (u : Nat) (hu : u ≤ c) :
+    exactP cdf .differs (u : Int) ((c : Int) - u) = Spec.UExact.pTwoSided dist u :=
+  C11.two_sided_spec_partial cdf dist c h hne hsym u hu
+
+/-- the specification's two-sided value always lies in [0,1], and swapping the samples mirrors U -/
+theorem two_sided_in_unit_interval_and_swap {α : Type} [LinearOrder α] (dist : List Nat) (u : Nat) (x1 x2 : List α) :
+    (0 ≤ Spec.UExact.pTwoSided dist u ∧ Spec.UExact.pTwoSided dist u ≤ 1)
+      ∧ Spec.UExact.twoUPairs x1 x2 + Spec.UExact.twoUPairs x2 x1 = 2 * x1.length * x2.length :=
+  C11.two_sided_in_unit_interval_and_swap_invariant dist u x1 x2
+
+/-! #### untied samples, end to end (pool of distinct values listed in descending order) -/
+
+/-- the untied CDF wrapper (with its flip) is the distribution function of the enumeration -/
+theorem untied_cdf_is_cdf {α : Type} [LinearOrder α] (n m : Nat) (T : List Nat) (hT : UDist.hasTies T = false)
+    (pool : List α) (hlen : pool.length = n + m) (hdesc : pool.Pairwise (· > ·)) :
+    IsCDFOf (cdfPure n m T) (Spec.UExact.nullDistOf n pool) :=
+  C11.untied_cdf_is_cdf n m T hT pool hlen hdesc
+
+theorem less_exact_untied {α : Type} [LinearOrder α] (n m : Nat) (T : List Nat) (hT : UDist.hasTies T = false)
+    (pool : List α) (hlen : pool.length = n + m) (hdesc : pool.Pairwise (· > ·)) (u : Nat) (tu2 : Int) :
+    exactP (cdfPure n m T) .less (u : Int) tu2 = Spec.UExact.pLess (Spec.UExact.nullDistOf n pool) u :=
+  C11.less_exact_untied n m T hT pool hlen hdesc u tu2
+
+theorem greater_exact_untied {α : Type} [LinearOrder α] (n m : Nat) (T : List Nat) (hT : UDist.hasTies T = false)
+    (pool : List α) (hlen : pool.length = n + m) (hdesc : pool.Pairwise (· > ·)) (u : Nat) (tu2 : Int) :
+    exactP (cdfPure n m T) .greater (u : Int) tu2 = Spec.UExact.pGreater (Spec.UExact.nullDistOf n pool) u :=
+  C11.greater_exact_untied n m T hT pool hlen hdesc u tu2
+
+/-- **two_sided_spec for untied samples** (full): the untied null distribution is symmetric -/
+theorem two_sided_exact_untied {α : Type} [LinearOrder α] (n m : Nat) (T : List Nat) (hT : UDist.hasTies T = false)
+    (pool : List α) (hlen : pool.length = n + m) (hdesc : pool.Pairwise (· > ·)) (u : Nat) (hu : u ≤ 2 * (n * m)) :
+    exactP (cdfPure n m T) .differs (u : Int) (((2 * (n * m) : Nat) : Int) - (u : Int))
+      = Spec.UExact.pTwoSided (Spec.UExact.nullDistOf n pool) u :=
+  C11.two_sided_exact_untied n m T hT pool hlen hdesc u hu
+
+example : exactP (cdfPure 2 1 []) .differs ((2 : Nat) : Int) (((2 * (2 * 1) : Nat) : Int) - ((2 : Nat) : Int))
+    = Spec.UExact.pTwoSided (Spec.UExact.nullDistOf 2 [(3 : Nat), 2, 1]) 2 :=
+  two_sided_exact_untied 2 1 [] rfl [3, 2, 1] rfl (by decide) 2 (by decide)
+
+/-! #### tied samples -/
+
+/-- **groups_count_labelings.** Counting assignments per tie group (r-vectors weighted by ∏ C(t_k, r_k))
+    is the same as enumerating the assignments of the pooled sample with tie vector T. -/
+theorem groups_count_labelings (T : List Nat) (n1 : Nat) (twoU : Int) :
+    groupCount T n1 twoU
+      = ((Spec.UExact.nullDistOf n1 (poolOf T)).filter fun (d : Nat) => decide ((d : Int) ≤ twoU)).length :=
+  C11.groups_count_labelings_nat T n1 twoU
+
+/-- the tied CDF wrapper is the distribution function of the enumeration, given that the counting
+    recurrence equals the per-group count (hypothesis `hA` = `tied_recurrence_exact`) -/
+theorem tied_cdf_is_cdf_of_recurrence (T : List Nat) (n1 n2 : Nat) (hT : UDist.hasTies T = true)
+    (hN : T.sum = n1 + n2) (hA : ∀ v : Int, A T T.length (n1 : Int) v = groupCount T n1 v) :
+    IsCDFOf (cdfPure n1 n2 T) (Spec.UExact.nullDistOf n1 (poolOf T)) :=
+  C11.tied_cdf_is_cdf_of_recurrence T n1 n2 hT hN hA
 
 /-- **two_sided_asymmetric_witness** (finding N5): for x1 = {1,2}, x2 = {2} the code's two-sided value
     is 4/3, swapped 2/3; the specification demands 1 both ways. Hence `two_sided_spec` is false for
